@@ -134,6 +134,12 @@ class Verifier:
             res = SV(info.ty, T.val_mk(info.ty, *[run.coerce(self.building[f], ft).z for f, ft in info.fields.items()]))
         elif c.ret is not None and c.ret != T.NONE:
             res = run.coerce(ret, c.ret)
+        if isinstance(res, SV) and not z3.is_const(res.z):
+            # name the result, so that quantifier patterns in the postconditions stay legal even when the
+            # value is a join (if-then-else) of several paths
+            named = z3.Const(H.fresh_name("result"), res.z.sort())
+            run.assume(named == res.z)
+            res = SV(res.ty, named)
         cc0 = Ctx(args, self.pre_heap, self.pre_heap, run=run, alloc0=self.alloc_entry)
         for exc, cond in c.raises.items():
             run.oblige("noraise.%s" % exc, z3.Not(_b(cond(cc0))), site="exit", kind="raises")
